@@ -369,6 +369,20 @@ def step (st : St) (line : String) : St × String :=
       ({ st with tokens := (name, .sealed true k 0 (.session u r)) :: st.tokens }, "ok foreign:trivial")
     | _, _, _ => (st, "bad-op foreign")
   | "req" :: _ => stepReq st ws ows
+  -- C16, profile `pathfuzz`: boundary values in path segments and mutated bodies, sent as the admin.
+  -- The model's statement is the one of C16: every request is answered (any status) and processing
+  -- neither panics nor takes the daemon down.
+  | "fuzz" :: _ :: _ :: rest =>
+    let status := ((kv? ows "status").bind String.toNat?).getD 0
+    let alive := kv? ows "alive" == some "1"
+    let what := (kv? rest "what").getD "?"
+    let kind := if what.startsWith "body:" then "body" else "segment"
+    match kv? ows "panic" with
+    | some p => (st, fail "oracle" s!"no_panic panic={p} status={status}")
+    | Option.none =>
+      if status == 0 then (st, fail "oracle" "no_panic no-response")
+      else if !alive then (st, fail "oracle" "no_panic daemon-down")
+      else (st, s!"ok fuzz:{kind}/{if status < 300 then "2xx" else if status < 400 then "3xx" else if status == 400 then "400" else if status == 404 then "404" else if status == 405 then "405" else if status < 500 then "4xx" else "5xx"}")
   | _ => (st, "bad-op " ++ opS)
 
 def main : IO Unit := do
